@@ -96,7 +96,7 @@ def run(ctx, only_saveload=False, pid="C14"):
     worlds_ = [("fcc", 0, 1), ("honeycomb", 0, 1), ("polarrect", 1, 2)] if quick else [
         ("fcc", 0, 1), ("honeycomb", 0, 1), ("polarrect", 1, 2), ("hcp", 0, 2), ("square", 0, 1), ("b2", 0, 1),
         ("rect2site", 0, 2)]
-    depth = 3 if quick else 5
+    depth = 4 if quick else 5        # quick: depth 4 on fcc only (see maxlen), 3 elsewhere
     if only_saveload:
         depth = 4 if quick else 6
     nodes, out, root = history_graph(ctx, 2, (1, 2), depth)
@@ -132,7 +132,13 @@ def run(ctx, only_saveload=False, pid="C14"):
         npaths = [0]
 
         # full depth on the first three worlds, one action less on the others (bounds the thorough tier to ~30 min)
-        maxlen = depth if (quick or only_saveload or name in ("fcc", "honeycomb", "polarrect")) else depth - 1
+        if only_saveload:
+            maxlen = depth
+        elif quick:
+            # Lij, Lij (cache hit), Scribble, Lij needs four actions: the cheapest world gets them
+            maxlen = 4 if name == "fcc" else 3
+        else:
+            maxlen = depth if name in ("fcc", "honeycomb", "polarrect") else depth - 1
 
         def dfs(node, obj, hist):
             kids = out.get(node, []) if len(hist) < maxlen else []
